@@ -987,7 +987,7 @@ func accountedReceive(s *Stage, pr *proc, st *ir.Step) string {
 	// number of receives: trip count of the innermost loop (or 1) - or "until drained" when this goroutine closed the
 	// channel before (after the Wait): then exactly what was sent is received, however many that is
 	var nRecv *ir.Term = ir.Const("1")
-	drain := closedBefore(pr.an, st)
+	drain := drainsByClose(pr.an, st)
 	if h := innermostHeader(st.Instr.Block()); h != nil && !drain {
 		cl := countedLoop(pr.an, h)
 		if cl == nil || cl.Trip == nil {
@@ -1678,4 +1678,41 @@ func closedBefore(an *ir.Analysis, st *ir.Step) bool {
 		closedBeforeLoop[st.Instr] = true
 	}
 	return ok
+}
+
+// drainsByClose: the receive st reads a channel its goroutine closed before, with comma-ok (a `range`), and the loop
+// around it ends exactly when the channel reports closed: every path through the receive tests ok, and the path on
+// which ok is false does not come back for another receive. A counted loop reading a closed channel blindly is not
+// a drain - past the buffered values it receives zero values.
+func drainsByClose(an *ir.Analysis, st *ir.Step) bool {
+	if st == nil || !st.CommaOk || !closedBefore(an, st) {
+		return false
+	}
+	h := innermostHeader(st.Instr.Block())
+	if h == nil {
+		return false
+	}
+	okT := &ir.Term{Op: "extract", Aux: "1", Args: []*ir.Term{st.R}}
+	n := 0
+	for _, p := range an.AllPaths() {
+		has := false
+		for i := range p.Steps {
+			if p.Steps[i].Instr == st.Instr && p.Steps[i].Kind == ir.KRecv {
+				has = true
+			}
+		}
+		if !has {
+			continue
+		}
+		n++
+		switch polarity(p, okT) {
+		case 0:
+			return false
+		case -1:
+			if p.To == h {
+				return false
+			}
+		}
+	}
+	return n > 0
 }
